@@ -11,9 +11,11 @@ ASSUMPTIONS = [
     "every fill has quantity > 0 (quantity = 0 makes rust_decimal panic on a division by zero in approximate_remaining_exit_fees; rejected as bad-op by harness and model)",
     "all fills of a history are on one instrument (the engine routes by instrument; per-instrument independence is theorem engine_routes_per_instrument)",
     "exact rational arithmetic: the 'up to decimal rounding' of the property is the 1e-18 tolerance of the correspondence, not part of the theorems",
+    "the arithmetic kernels calculate_price_entry_average / calculate_pnl_realised / calculate_pnl_unrealised / approximate_remaining_exit_fees (position.rs) and enum Side (barter-instrument/src/lib.rs) are additionally tied to the source by translation: tools/rust2lean.py regenerates their Lean definitions from the current Rust text before every build (PREBUILD) and theorem kernels_agree_with_source proves them equal to the model's definitions for all arguments; trusted there: the translator's reading of the small Rust subset it accepts (it rejects everything else) and its fixed Decimal prelude (abs, is_zero, checked_div = None exactly on a zero divisor, MAX/MIN)",
 ]
 SOURCE_FILES = ["barter/src/engine/state/position.rs", "barter/src/engine/state/instrument/mod.rs", "barter-execution/src/trade.rs",
-                "barter/src/engine/state/mod.rs"]
+                "barter/src/engine/state/mod.rs", "barter-instrument/src/lib.rs"]
+PREBUILD = [["python3", "tools/rust2lean.py", "--require", "position"]]
 CLAIM = True
 TECHNIQUE = "Lean 4: invariant by induction over fill histories relating the PositionManager model to net / cash / fee sums of the history; correspondence of the model with PositionManager::update_from_trade and Engine::process"
 LEVEL_TEXT = ("Proof. Lean theorems over the PositionManager model (lean/BarterModel/Props/C02.lean), for every finite fill list on one instrument with "
@@ -34,7 +36,8 @@ LEVEL_NOTE = ("Trusted: Lean kernel; axioms propext/Classical.choice/Quot.sound 
               "PositionManager::update_from_trade and against Engine::process + EngineOutput::PositionExit: 500 quick / 30k random + all 22 620 sequences of "
               "length <= 4 over a 12-symbol alphabet thorough, every field of Position / PositionExited compared after every fill, division-derived fields to "
               "1e-18); harness, driver, orchestrator. Assumes quantity > 0 (quantity = 0 panics in rust_decimal: outside the quantifier) and exact arithmetic "
-              "(Decimal rounding / overflow not modelled; products above ~1e8 are kept out of the generated cases because their rounding exceeds the tolerance).")
+              "(Decimal rounding / overflow not modelled; products above ~1e8 are kept out of the generated cases because their rounding exceeds the tolerance). "
+              "Additionally tied by translation: the Lean definitions of the kernels calculate_price_entry_average / calculate_pnl_realised / calculate_pnl_unrealised / approximate_remaining_exit_fees (position.rs) and enum Side (barter-instrument/src/lib.rs) are regenerated from the current source on every run (tools/rust2lean.py) and proved equal to the model's (kernels_agree_with_source), so a change of such a kernel breaks a proof obligation directly; the translator and its Decimal prelude are trusted for that tie.")
 
 
 def _frac(x):
